@@ -2,6 +2,7 @@ package props
 
 import (
 	"bufio"
+	"bytes"
 	"context"
 	"fmt"
 	"io"
@@ -88,6 +89,20 @@ func (C11) Gen(r *core.Rng, tier string, emit func(string)) {
 	}
 	for i := 0; i < n; i++ {
 		emit("path " + hexs([]byte(randPath(r))))
+	}
+	// climbing keys spelled so that a hand-rolled depth count and the path join disagree: empty elements, `.`
+	// elements, descents into directories that do not exist, trailing separators — before and between the `..`
+	for _, pre := range []string{"a", "sub", "sub/deep", "nosuchdir", "a/b/c"} {
+		for _, mid := range []string{"//", "/./", "///", "/.//", "//.//"} {
+			for up := 1; up <= 4; up++ {
+				for _, tgt := range []string{"outside.pmtiles", "srv-evil/x.pmtiles", "secret.pmtiles", "srv/a.pmtiles"} {
+					if r.Chance(1, 3) {
+						emit("local " + hexs([]byte(pre+mid+strings.Repeat("../", up)+tgt)))
+						emit("local " + hexs([]byte(pre+mid+strings.Repeat("..//", up)+tgt)))
+					}
+				}
+			}
+		}
 	}
 	for i := 0; i < n/4; i++ {
 		emit("local " + hexs([]byte(randKey(r))))
@@ -247,6 +262,39 @@ func (C11) RunGo(line string) string {
 		}
 		r, _, _, err := b.NewRangeReaderEtag(context.Background(), p, 0, 1<<20, "")
 		if err != nil {
+			// a failed read of a key that POINTS outside the served directory must be a refusal, not luck: the
+			// file the joined path names is put there (inside the fixture tree) and the read repeated — whatever
+			// words the first failure used, data must not come back now
+			if target := filepath.Join(c11Served, filepath.FromSlash(p)); !strings.ContainsRune(p, 0) &&
+				!strings.HasPrefix(target, c11Served+string(filepath.Separator)) && target != c11Served &&
+				strings.HasPrefix(target, c11Root+string(filepath.Separator)) {
+				if _, serr := os.Stat(target); serr != nil {
+					var made []string
+					for d := filepath.Dir(target); strings.HasPrefix(d, c11Root+string(filepath.Separator)); d = filepath.Dir(d) {
+						if _, e := os.Stat(d); e != nil {
+							made = append(made, d)
+						} else {
+							break
+						}
+					}
+					if os.MkdirAll(filepath.Dir(target), 0o755) == nil && os.WriteFile(target, markerArchive("OUTSIDE:probe"), 0o644) == nil {
+						r2, _, _, err2 := b.NewRangeReaderEtag(context.Background(), p, 0, 1<<20, "")
+						leaked := false
+						if err2 == nil {
+							d2, _ := io.ReadAll(r2)
+							r2.Close()
+							leaked = bytes.Contains(d2, []byte("OUTSIDE:probe"))
+						}
+						os.Remove(target)
+						for _, d := range made {
+							os.Remove(d)
+						}
+						if leaked {
+							return "LEAK OUTSIDE:probe (a file created at the path the key points to, outside the served directory, was read)"
+						}
+					}
+				}
+			}
 			if strings.Contains(err.Error(), "invalid key") {
 				return "refused"
 			}
